@@ -173,6 +173,18 @@ class C03(PropCheck):
             doc = pm_corr.doc_from_json(meta['doc'])
             out = pm_corr.real_line(doc)
             return geometry_violation(doc, out) or pm_corr.progress_violation(doc, out)
+        if 'html' in meta and 'page_index' in meta:
+            document = docs.render(meta['html'])
+            if meta['page_index'] >= len(document.pages):
+                return None
+            bottom, items = wide_trace.fit_items(document.pages[meta['page_index']],
+                                                 decorations='deco' in meta.get('kinds', ()) or
+                                                 'family' in meta.get('features', ()))
+            limit = bottom * (1 + wide_trace.Fraction(1, 10**9))
+            bad = [(str(b), kind) for (b, first), kind in zip(items, wide_trace.fit_items.kinds)
+                   if b > limit and not first]
+            return (f'page {meta["page_index"]}: in-flow items {bad} end below the content box bottom {bottom} '
+                    f'without being first on their page') if bad else None
         return None
 
 
